@@ -115,7 +115,7 @@ def _fname(call):
     return None
 
 
-def eager_consumptions(fnode, tainted, lazy_callbacks):
+def eager_consumptions(fnode, tainted, lazy_callbacks, for_loops=True):
     """Flow-insensitive taint analysis inside one payload. tainted: set of
     names holding unlimited lazy values; lazy_callbacks: names of callable
     parameters whose results are lazy-unknown. Returns [(line, what)]."""
@@ -160,7 +160,8 @@ def eager_consumptions(fnode, tainted, lazy_callbacks):
                     and any(expr_tainted(a) for a in n.args):
                 out.append((n.lineno, '.%s(...) consumes an unlimited lazy '
                             'value' % fn))
-        elif isinstance(n, ast.For) and expr_tainted(n.iter) and not is_gen:
+        elif isinstance(n, ast.For) and expr_tainted(n.iter) and not is_gen \
+                and for_loops:
             out.append((n.lineno, 'for-loop over an unlimited lazy value in '
                         'a non-generator payload'))
         elif isinstance(n, (ast.ListComp, ast.SetComp, ast.DictComp)):
